@@ -42,6 +42,7 @@ fn main() {
         "config" => tvh::config::run(&mut rng, thorough, &corpus),
         "strategy" => tvh::strategy::run(&mut rng, thorough, &corpus),
         "wire" => tvh::wire::run(&mut rng, thorough, &corpus),
+        "chan" => tvh::chan::run(&mut rng, thorough, &corpus),
         "tui" => tvh::tui::run(&mut rng, thorough, &corpus),
         _ => { eprintln!("unknown component {comp}"); std::process::exit(2); }
     };
